@@ -1,7 +1,7 @@
 """C15 — signature text (Display / FromStr) against Model/SigText.v, and the sign -> hash CLI pipeline."""
 from coqrun import ni, tx
 from gen import pyref, txgen
-from gen.util import SECP_N, comparison_path_values, lib_vs_model, rbytes, short
+from gen.util import lookalike_variants, SECP_N, comparison_path_values, lib_vs_model, rbytes, short
 
 DRIVERS = ['C15']
 NEEDS = dict(cli=True, harness=True, shim=False, release=False)
@@ -110,6 +110,11 @@ def run(ctx):
     bad += [("0X" + base[2:], None, "prefix/0X"), ("0x0x" + base[2:], None, "prefix/double"), (" " + base, None, "space"),
             (base + " ", None, "space"), (base + "\n", None, "space"), ("", None, "empty"), ("0x", None, "empty"),
             (base[:2] + "é" + base[4:], None, "non-ascii"), (base[:-1] + "１", None, "non-ascii"), (base + "00", None, "length/wrong")]
+    # non-ASCII characters whose code point is a hex digit modulo 256 (İ for 0, ı for 1, š for a, ...): not hexadecimal
+    for (rr, ss, pp) in sigs[:4]:
+        for pre in ("0x", ""):
+            for t in lookalike_variants(pre + fmt(rr, ss, pp)[2:], rng, count=5):
+                bad.append((t, None, "non-ascii/low-byte-look-alike"))
     cases = [(t, want, cls, "must") for (t, want, cls) in texts] + \
             [(t, want, cls, "model" if want == "model" else "must") for (t, want, cls) in bad]
     impl = ctx.harness([("sig.parse", t) for (t, _, _, _) in cases])
